@@ -176,6 +176,18 @@ def sweeps(quick):
     for v in (-5, -1, 0, 1, 5):
         for op in ('EQ', 'NEQ', 'LT', 'GT', 'LE', 'GE'):
             add(op, [PUSH(T.INT, v), I(op)])
+    # integer division and sign-sensitive arithmetic over a small signed pool (exact and inexact quotients, both signs)
+    small = [-7, -6, -3, -2, -1, 0, 1, 2, 3, 6, 7]
+    for a in small:
+        for b in small:
+            add('EDIV int int', [PUSH(T.INT, b), PUSH(T.INT, a), I('EDIV')])
+            if b >= 0:
+                add('EDIV int nat', [PUSH(T.NAT, b), PUSH(T.INT, a), I('EDIV')])
+            if a >= 0:
+                add('EDIV nat int', [PUSH(T.INT, b), PUSH(T.NAT, a), I('EDIV')])
+            if a >= 0 and b >= 0:
+                add('EDIV mutez nat', [PUSH(T.NAT, b), PUSH(T.MUTEZ, a), I('EDIV')])
+                add('EDIV mutez mutez', [PUSH(T.MUTEZ, b), PUSH(T.MUTEZ, a), I('EDIV')])
     # CAST / RENAME no-ops
     add('CAST', [PUSH(T.NAT, 1), I('CAST', TY(T.NAT))])
     add('RENAME', [PUSH(T.NAT, 1), I('RENAME', annots=['@x'])])
